@@ -13,7 +13,7 @@ LEVEL = 'exploration'
 RULE = ("Algorithm L consumes continuous uniforms, so this property is decided statistically (rule 2.7 of DESIGN.md): for every "
         "k in 1..3 and n in k..k+6 the FULL histogram of retained subsets over N independent runs of the library's own sampler is "
         "compared cell by cell with 1/C(n,k) (exact two-sided binomial tail, Bonferroni over the cells, alarm only if p < 1e-9 AND an "
-        "independent confirmation run with 4N executions gives p < 1e-6); n = k is asserted deterministically (everything retained); "
+        "independent confirmation run with 4N executions gives p < 1e-6); n = k is asserted deterministically (everything retained); store_targets alternates between the pairs (the law must not depend on it); "
         "for larger pairs (5,40), (10,100), (100,300 = the explainers' default size) and Hypothesis-drawn pairs (k<=12, n<=k+40) the "
         "per-arrival inclusion counts are compared with k/n; LONG streams (k=1, n=30000; k=2, n=25000 - beyond 1e4*k, where numerical guards on the weight would bite) are tested per decile of the stream. N = 4e4 per pair (quick), 2e6 spread over 16 workers (thorough). "
         "Non-trivial: n >= k+2 (at least two skip computations); distinct = distinct (k, n, retained subset) outcomes observed.")
@@ -21,11 +21,18 @@ ASSUMPTIONS = ["CPython's Mersenne Twister stream, consumed sequentially from on
                "deviations below the reported minimal detectable effect pass"]
 
 
-def one_run(k, n):
+def one_run(k, n, st=None):
+    """store_targets alternates with (k + n) unless given: the sampling law must not depend on whether targets are kept."""
     from ixai.storage import UniformReservoirStorage
-    s = UniformReservoirStorage(size=k, store_targets=False)
-    for i in range(1, n + 1):
-        s.update({'id': i})
+    if st is None:
+        st = (k + n) % 2 == 0
+    s = UniformReservoirStorage(size=k, store_targets=st)
+    if st:
+        for i in range(1, n + 1):
+            s.update({'id': i}, i)
+    else:
+        for i in range(1, n + 1):
+            s.update({'id': i})
     xs, _ = s.get_data()
     return tuple(sorted(x['id'] for x in xs))
 
